@@ -87,6 +87,36 @@ AnyProgs ==
                       <<Pr(<<ECallB("len", <<EVar("xs", TArr(T_any))>>)>>),
                         SFor("e", "arr", <<EVar("xs", TArr(T_any))>>, <<Pr(<<TypeOf(EVar("e", T_any)), EVar("e", T_any)>>)>>)>>)>>, <<>>) }
 
+\* --- (c2) a block-local variable that shadows an outer variable of ANOTHER type, in every kind of block;
+\*          the outer variable is used with its own type afterwards
+ShadowBlocks(inner) ==
+  { SIf(<<EBool(TRUE)>>, << inner >>, <<>>),
+    SIf(<<EBool(FALSE)>>, << <<Pr(<<Num(0)>>)>> >>, << inner >>),
+    SIf(<<EBool(FALSE), EBool(TRUE)>>, << <<Pr(<<Num(0)>>)>>, inner >>, << <<Pr(<<Num(0)>>)>> >>),
+    SWhile(EBin("<", EVar("w", T_num), Num(1)), <<SAsg(EVar("w", T_num), Num(1))>> \o inner),
+    SFor("", "num", <<Num(2)>>, inner),
+    SFor("q", "arr", <<EArr(<<Num(1)>>)>>, <<Pr(<<EVar("q", T_num)>>)>> \o inner),
+    SFor("q", "map", <<EMap(<<K(97)>>, <<Num(1)>>)>>, <<Pr(<<EVar("q", T_str)>>)>> \o inner) }
+ShadowProgs ==
+  { P1(<<SInfer("w", Num(0)), SInfer("count", Num(1)), blk, Pr(<<EBin("+", EVar("count", T_num), Num(1)), TypeOf(EVar("count", T_num)), EVar("w", T_num)>>)>>) :
+      blk \in ShadowBlocks(<<SInfer("count", EStr(<<115>>)), Pr(<<EBin("+", EVar("count", T_str), EStr(<<33>>))>>)>>) }
+  \cup { P1(<<SInfer("w", Num(0)), SInfer("v", EArr(<<Num(1)>>)), blk, Pr(<<EIdx(EVar("v", TArr(T_num)), Num(0)), TypeOf(EVar("v", TArr(T_num))), EVar("w", T_num)>>)>>) :
+      blk \in ShadowBlocks(<<SInfer("v", EMap(<<K(97)>>, <<EBool(TRUE)>>)), Pr(<<EDot(EVar("v", TMap(T_bool)), K(97))>>)>>) }
+  \cup { Program(<<SInfer("count", Num(1)), SCall(ECallU("f", Sig(<<T_str>>, <<>>, T_none), <<EStr(<<97>>)>>)), Pr(<<EBin("+", EVar("count", T_num), Num(1))>>)>>,
+                  <<FuncDef("f", <<Param("count", T_str)>>, <<>>, T_none, <<Pr(<<EBin("+", EVar("count", T_str), EStr(<<33>>))>>)>>)>>, <<>>) }
+\* --- (c3) any values keep their dynamic type through repetition, slicing, concatenation and loops
+KeepTag ==
+  LET a == EVar("a", TArr(T_any))
+      e == EVar("e", T_any)
+      Show(x) == <<SFor("e", "arr", <<x>>, <<Pr(<<TypeOf(e), e>>)>>),
+                   Pr(<<EBin("==", EIdx(x, Num(0)), EIdx(x, Num(1))), EBin("==", EIdx(x, Num(0)), EIdx(x, Num(0))),
+                        EBin("+", EAssert(EIdx(x, Num(0)), T_num), Num(1)), EAssert(EIdx(x, Num(1)), T_str)>>)>>
+      Base == SInfer("a", EArr(<<Num(1), EStr(<<120>>), EArr(<<Num(2)>>), EMap(<<K(97)>>, <<Num(3)>>)>>))
+  IN { P1(<<Base, SInfer("b", EBin("*", a, Num(2)))>> \o Show(EVar("b", TArr(T_any)))),
+       P1(<<Base, SInfer("b", ESlice(a, <<>>, <<Num(3)>>))>> \o Show(EVar("b", TArr(T_any)))),
+       P1(<<Base, SInfer("b", EBin("+", a, a))>> \o Show(EVar("b", TArr(T_any)))),
+       P1(<<Base, SInfer("b", EBin("*", EArr(<<a, a>>), Num(1)))>> \o Show(EIdx(EVar("b", TArr(TArr(T_any))), Num(1)))) }
+
 \* --- (d) built-ins and operators on extreme arguments (mostly soundOnly)
 Ext == {NaNE, InfE, EUn("-", InfE), ENum(Big), EUn("-", ENum(Big)), ENum(I(2147483647)), EUn("-", ENum(Fin(1, 1))), ENum(Fin(1, 8)), Num(0)}
 NumBuiltins1 == {"sleep", "exit", "circle", "width", "rand", "abs", "floor", "ceil", "round", "log", "sqrt", "sin", "cos"}
@@ -123,7 +153,8 @@ Extreme ==
 
 FamCases == {MkCase("FamSound", "infer", p) : p \in InferProgs}
             \cup {MkCase("FamSound", "conv", p) : p \in ConvProgs}
-            \cup {MkCase("FamSound", "assert", p) : p \in AssertProgs \cup AnyProgs}
+            \cup {MkCase("FamSound", "assert", p) : p \in AssertProgs \cup AnyProgs \cup KeepTag}
+            \cup {MkCase("FamSound", "shadow", p) : p \in ShadowProgs}
             \cup {MkCase("FamSound", "extreme", p) : p \in Extreme}
 FamInit == InitWith(FamCases)
 =============================================================================
